@@ -8,33 +8,49 @@ TRUST = ["blocks()/value()/num_vars() are the trusted projection of a table",
 CTORS = ["zero", "one", "default", "parity", "majority", "nth_var", "threshold", "equals", "symmetric"]
 
 
-def P(strict_ops, rule, **kw):
-    d = {"strict_ops": strict_ops, "rule": rule, "assumptions": TRUST, "mc": [],
+def KMC(parts):
+    """Kernel-refinement configs: quick = all tables n <= 3 + 1/16 of n = 4; thorough = all tables n <= 4."""
+    out = []
+    for part in parts:
+        for k in (2, 3):
+            if part == "ctors":
+                out.append({"module": "MC_Kernels.tla", "cfg": "MC_Kernels_ctors_K%d_q.cfg" % k})
+            else:
+                out.append({"module": "MC_Kernels.tla", "cfg": "MC_Kernels_%s_K%d_q.cfg" % (part, k), "only": "quick"})
+                out.append({"module": "MC_Kernels.tla", "cfg": "MC_Kernels_%s_K%d_t.cfg" % (part, k), "tier": "thorough",
+                            "workers": 16})
+    return out
+
+
+def P(strict_ops, rule=None, **kw):
+    d = {"strict_ops": strict_ops, "assumptions": TRUST, "mc": [],
          "profiles": ["checked"], "profiles_thorough": ["checked", "fast"]}
     d.update(kw)
+    if rule is not None:
+        d["rule"] = rule
     return d
 
 
 PROPS = {
-    "C01": P(["logic"], "every syntactic form of NOT/AND/OR/XOR on structured and random operand pairs for n = 0..14; "
+    "C01": P(["logic"], mc=KMC(["logic"]), rule="every syntactic form of NOT/AND/OR/XOR on structured and random operand pairs for n = 0..14; "
              "all pairs x forms for n <= 2 (n = 3 thorough); distinct = distinct (form, operands) content"),
-    "C02": P([], "random call histories (30 calls) over constructors, parser, operators, transforms, cofactoring, mutators, "
+    "C02": P([], mc=KMC(["transforms", "text"]), rule="random call histories (30 calls) over constructors, parser, operators, transforms, cofactoring, mutators, "
              "canonization, successor; every produced table checked for well-formedness, ==/hash/cmp observations and "
              "a value()-rebuilt twin of random slots compared with the original"),
-    "C03": P(["flip", "swap", "swapadj", "cofactors", "fromcof"],
-             "for every n = 1..14 and every index (pair) one structured or random table, copying and in-place forms; "
+    "C03": P(["flip", "swap", "swapadj", "cofactors", "fromcof"], mc=KMC(["transforms"]),
+             rule="for every n = 1..14 and every index (pair) one structured or random table, copying and in-place forms; "
              "thorough: every table of n <= 4"),
     "C04": P(["canon"], "canonization calls with the walk hook; exact orbit minimum by enumeration in the specification",
              chunk_weight=2500),
     "C05": P(["canon"], "canonization certificates applied by the specification's ApplyCert; every representative fed back",
              chunk_weight=6000),
-    "C06": P(["decomp", "unate"], "every variable of structured, cofactor-structured and one-bit-off tables, n = 1..12"),
+    "C06": P(["decomp", "unate"], mc=KMC(["decomp"]), rule="every variable of structured, cofactor-structured and one-bit-off tables, n = 1..12"),
     "C07": P(["bdd"], "lists of 0..4 functions with shared structure (adders, muxes, symmetric, cofactors, complements), n = 0..11; "
              "every single function of n <= 3"),
-    "C08": P(["rel", "iter_start", "iter_next", "vnext"],
-             "ordering observations on structured pairs/triples (one-bit differences in low/high words), cross-size pairs, "
+    "C08": P(["rel", "iter_start", "iter_next", "vnext"], mc=KMC(["order"]),
+             rule="ordering observations on structured pairs/triples (one-bit differences in low/high words), cross-size pairs, "
              "complete iterator runs, hooked successor from tables with all-ones low words"),
-    "C09": P(["text", "from_hex"], "all formatting entry points on structured tables; parsing of printed strings, their "
+    "C09": P(["text", "from_hex"], mc=KMC(["text"]), rule="all formatting entry points on structured tables; parsing of printed strings, their "
              "single-byte mutations, multi-byte characters at chunk boundaries, wrong lengths, exhaustive alphabet strings for n <= 3"),
     "C10": P(["conv_rt", "conv_try", "conv_int"],
              "the same script executed on Lut and on LutN, events compared field by field by the trace specification; "
@@ -42,7 +58,7 @@ PROPS = {
              phases=[{"gen": "C10a", "runs": [("checked", "lut"), ("checked", "lutn")], "validate": [(0, 1)]},
                      {"gen": "C10b", "runs": [("checked", "lut")], "validate": [(0, None)]}],
              count_all=True),
-    "C11": P(CTORS, "all named constructors, n = 0..14, all i < n, k in 0..n+2 and 63, 64, 65, 2^32, usize::MAX, "
+    "C11": P(CTORS, mc=KMC(["ctors"]), rule="all named constructors, n = 0..14, all i < n, k in 0..n+2 and 63, 64, 65, 2^32, usize::MAX, "
              "all count masks for n <= 5 and structured/random 64-bit masks above"),
     "C18": P(["optimize"],
              "optimize_sop_mip / optimize_sopes_mip / optimize_esop_mip on all lists of 1..2 functions for n <= 2 and all single "
